@@ -385,7 +385,16 @@ func (in *Interp) lookup(ins *ssa.Lookup, x, k Value) Value {
 		}
 		return val
 	case Str:
-		return in.index(v, k.(*Term))
+		kt := k.(*Term)
+		if kt.W > 0 && kt.W < 64 {
+			_, sg, _ := intWidth(ins.Index.Type())
+			if sg {
+				kt = SignExt(64-kt.W, kt)
+			} else {
+				kt = ZeroExt(64-kt.W, kt)
+			}
+		}
+		return in.index(v, kt)
 	}
 	in.fail("lookup on %T", x)
 	return nil
